@@ -457,7 +457,7 @@ Proof. apply set_all_perm. Qed.
 (* ------------------------------------------------------------ package loading *)
 Section LoadFacts.
   Context {F D : Type}.
-  Variable convert : env -> @srcfile F -> D.
+  Variable convert : env -> @srcfile F -> bytes -> D.
   Notation srcfile := (@srcfile F).
   Notation pkg := (@pkg D).
 
@@ -472,14 +472,35 @@ Section LoadFacts.
         let own := collect_exports files in
         let ds := set_all (map (fun d => (d, spec_exports b d)) (dep_names n files)) [] in
         let e := mkEnv own ds in
-        mkPkg own ds (set_all (map (fun f => (f_name f, convert e f)) files) [])
+        mkPkg own ds (set_all (concat (map (file_outputs convert e) files)) [])
     end.
 
   (* validity of a bundle: within a package no type is exported twice and no file name repeats *)
   Definition all_exports (files : list srcfile) : exports := concat (map file_exports files).
   Definition valid_pkg (files : list srcfile) : Prop :=
-    NoDup (map fst (all_exports files)) /\ NoDup (map f_name files).
+    NoDup (map fst (all_exports files)) /\ NoDup (concat (map f_outputs files)).
   Definition valid (b : @bundle F) : Prop := forall n fs, find_pkg n b = Some fs -> valid_pkg fs.
+
+  Lemma fold_include_concat {V} (g : srcfile -> list (bytes * V)) (l : list srcfile) : forall acc,
+    fold_left (fun acc f => include_io (g f) acc) l acc = set_all (concat (map g l)) acc.
+  Proof.
+    induction l as [|f r IH]; intro acc; cbn [fold_left map concat]; [reflexivity|].
+    rewrite set_all_app. rewrite IH. reflexivity.
+  Qed.
+  Lemma concat_map_perm {B} (g : srcfile -> list B) (l1 l2 : list srcfile) :
+    Permutation l1 l2 -> Permutation (concat (map g l1)) (concat (map g l2)).
+  Proof.
+    induction 1 as [|x l l' _ IH|x y l|l l' l'' _ IH1 _ IH2]; cbn [map concat].
+    - reflexivity.
+    - apply Permutation_app_head. exact IH.
+    - rewrite !app_assoc. apply Permutation_app_tail. apply Permutation_app_comm.
+    - etransitivity; eassumption.
+  Qed.
+  Lemma outputs_keys e (files : list srcfile) : map fst (concat (map (file_outputs convert e) files)) = concat (map f_outputs files).
+  Proof.
+    induction files as [|f r IH]; cbn [map concat]; [reflexivity|].
+    rewrite map_app, IH. f_equal. unfold file_outputs. rewrite map_map. cbn [fst]. apply map_id.
+  Qed.
 
   Lemma collect_exports_as_set_all (files : list srcfile) : collect_exports files = set_all (all_exports files) [].
   Proof.
@@ -617,10 +638,6 @@ Section LoadFacts.
   Lemma nodup_map_fst_pairs {B} (g : bytes -> B) l : NoDup l -> NoDup (map fst (map (fun d => (d, g d)) l)).
   Proof. intro H. rewrite map_map. cbn [fst]. rewrite map_id. exact H. Qed.
 
-  Lemma fold_files_as_set_all (g : srcfile -> D) (l : list srcfile) : forall acc,
-    fold_left (fun acc f => map_set (f_name f) (g f) acc) l acc = set_all (map (fun f => (f_name f, g f)) l) acc.
-  Proof. unfold set_all. induction l as [|f r IHf]; intro acc; cbn [map fold_left fst snd]; [reflexivity|apply IHf]. Qed.
-
   (* the loaded package is spec_pkg, whatever the cache held before and whatever the three orders *)
   Theorem load_spec (b : @bundle F) : valid b ->
     forall fuel c n c' p, cache_ok b c -> load fuel b c n = Some (c', p) -> p = spec_pkg b n /\ cache_ok b c'.
@@ -638,7 +655,7 @@ Section LoadFacts.
       assert (Hvp' : valid_pkg files).
       { destruct Hvp as [A B]. split.
         - apply (Permutation_NoDup (Permutation_map fst (all_exports_perm _ _ (Permutation_sym Hpf)))). exact A.
-        - apply (Permutation_NoDup (Permutation_map f_name (Permutation_sym Hpf))). exact B. }
+        - apply (Permutation_NoDup (concat_map_perm f_outputs _ _ (Permutation_sym Hpf))). exact B. }
       assert (Eown : collect_exports files = collect_exports files0) by (apply collect_exports_perm; assumption).
       assert (Edeps : collect_deps n files = collect_deps n files0) by (apply collect_deps_perm; exact Hpf).
       rewrite Eown, Edeps in Hl.
@@ -651,17 +668,61 @@ Section LoadFacts.
       { rewrite Hds. apply set_all_perm; [apply keys_sorted_nil| |].
         - apply nodup_map_fst_pairs. apply (Permutation_NoDup (Permutation_sym (range_deps_perm n _))). apply dep_names_nodup.
         - apply Permutation_map. apply range_deps_perm. }
-      assert (Eprod : forall e, set_all (map (fun f => (f_name f, convert e f)) files) [] = set_all (map (fun f => (f_name f, convert e f)) files0) []).
-      { intro e. apply set_all_perm; [apply keys_sorted_nil| |apply Permutation_map; exact Hpf].
-        rewrite map_map. cbn [fst]. exact (proj2 Hvp'). }
+      assert (Eprod : forall e, set_all (concat (map (file_outputs convert e) files)) [] = set_all (concat (map (file_outputs convert e) files0)) []).
+      { intro e. apply set_all_perm; [apply keys_sorted_nil| |apply concat_map_perm; exact Hpf].
+        rewrite outputs_keys. exact (proj2 Hvp'). }
       assert (Espec : mkPkg (collect_exports files0) ds
-                        (fold_left (fun acc f => map_set (f_name f) (convert (mkEnv (collect_exports files0) ds) f) acc) files [])
+                        (fold_left (fun acc f => include_io (file_outputs convert (mkEnv (collect_exports files0) ds) f) acc) files [])
                       = spec_pkg b n).
       { unfold spec_pkg. rewrite Ef. cbv zeta. rewrite <- Eds. f_equal.
-        transitivity (set_all (map (fun f => (f_name f, convert (mkEnv (collect_exports files0) ds) f)) files) []).
-        - apply fold_files_as_set_all.
-        - apply Eprod. }
+        rewrite fold_include_concat. apply Eprod. }
       rewrite Espec. split; [reflexivity|apply cache_ok_set; exact Hc1].
+  Qed.
+
+  (* ---- totality: with an acyclic dependency relation (a rank that decreases along dependencies),
+     every dependency present in the bundle and more fuel than the rank, loading succeeds whatever the
+     orders and whatever the (consistent) cache holds.  The Go code needs no fuel: it recurses along
+     the same relation and detects cycles through the resolveBaton chain. *)
+  Definition well_founded_deps (b : @bundle F) (rank : bytes -> nat) : Prop :=
+    forall n files, find_pkg n b = Some files ->
+      forall d, In d (dep_names n files) -> find_pkg d b <> None /\ (rank d < rank n)%nat.
+
+  Lemma dep_loop_total fuel b rank :
+    valid b ->
+    (forall n c, cache_ok b c -> find_pkg n b <> None -> (rank n < fuel)%nat -> exists c' p, load fuel b c n = Some (c', p)) ->
+    forall deps c ds, cache_ok b c ->
+      (forall d, In d deps -> find_pkg d b <> None /\ (rank d < fuel)%nat) ->
+      exists c' ds', fold_left (dep_step fuel b) deps (Some (c, ds)) = Some (c', ds').
+  Proof.
+    intros Hv IH. induction deps as [|d r IHd]; intros c ds Hc Hd; cbn [fold_left].
+    - eauto.
+    - destruct (Hd d (or_introl eq_refl)) as [Hf Hr].
+      destruct (IH d c Hc Hf Hr) as [c1 [pd El]]. cbn [dep_step]. rewrite El.
+      destruct (load_spec b Hv _ _ _ _ _ Hc El) as [_ Hc1].
+      apply IHd; [exact Hc1|]. intros x Hx. apply Hd. right. exact Hx.
+  Qed.
+
+  Theorem load_total (b : @bundle F) rank : valid b -> well_founded_deps b rank ->
+    forall fuel n c, cache_ok b c -> find_pkg n b <> None -> (rank n < fuel)%nat ->
+      exists c' p, load fuel b c n = Some (c', p).
+  Proof.
+    intros Hv Hw. induction fuel as [|fuel IH]; intros n c Hc Hf Hr; [lia|].
+    cbn [CmpbOrder.load]. destruct (map_get n c) as [p0|] eqn:G; [eauto|].
+    destruct (find_pkg n b) as [files0|] eqn:Ef; [|congruence].
+    fold (dep_step fuel b).
+    set (files := list_files n files0).
+    assert (Hpf : Permutation files files0) by apply list_files_perm.
+    assert (Hvp : valid_pkg files0) by (apply (Hv n); exact Ef).
+    assert (Eown : collect_exports files = collect_exports files0) by (apply collect_exports_perm; [|exact Hpf];
+      destruct Hvp as [A B]; split;
+      [apply (Permutation_NoDup (Permutation_map fst (all_exports_perm _ _ (Permutation_sym Hpf)))); exact A
+      |apply (Permutation_NoDup (concat_map_perm f_outputs _ _ (Permutation_sym Hpf))); exact B]).
+    assert (Edeps : collect_deps n files = collect_deps n files0) by (apply collect_deps_perm; exact Hpf).
+    rewrite Eown, Edeps. fold (dep_names n files0).
+    destruct (dep_loop_total fuel b rank Hv IH (range_deps n (dep_names n files0)) c [] Hc) as [c1 [ds Efold]].
+    - intros d Hd. apply (Permutation_in _ (range_deps_perm n _)) in Hd.
+      destruct (Hw n files0 Ef d Hd) as [H1 H2]. split; [exact H1|lia].
+    - rewrite Efold. eauto.
   Qed.
 
   (* CompilePackage returns exactly the package's files in file-name order *)
@@ -705,6 +766,16 @@ Section LoadFacts.
     rewrite (sorted_keys_fixed _ _ Hs (range_files_perm n _)). apply lookup_all. exact Hs.
   Qed.
 
+  Theorem compile_package_total (b : @bundle F) rank : valid b -> well_founded_deps b rank ->
+    forall fuel c n, cache_ok b c -> find_pkg n b <> None -> (rank n < fuel)%nat ->
+      exists c', compile_package convert list_files range_deps range_files fuel b c n = Some (c', p_files (spec_pkg b n)).
+  Proof.
+    intros Hv Hw fuel c n Hc Hf Hr. destruct (load_total b rank Hv Hw fuel n c Hc Hf Hr) as [c1 [p El]].
+    destruct (compile_package convert list_files range_deps range_files fuel b c n) as [[c' out]|] eqn:E.
+    - destruct (compile_package_spec b Hv _ _ _ _ _ Hc E) as [Ho _]. subst out. eauto.
+    - unfold compile_package in E. rewrite El in E. discriminate.
+  Qed.
+
   (* whatever was compiled before on this PackageSet leaves a cache that changes nothing *)
   Lemma compile_seq_cache_ok (b : @bundle F) : valid b ->
     forall fuel calls c, cache_ok b c ->
@@ -717,10 +788,25 @@ Section LoadFacts.
   Qed.
 End LoadFacts.
 
+(* Total form: on a valid bundle with acyclic, present dependencies and enough fuel, EVERY run returns,
+   and returns the package as the bundle alone determines it *)
+Theorem compile_total_deterministic {F D} (convert : env -> @srcfile F -> bytes -> D) (b : @bundle F) rank :
+  valid b -> well_founded_deps b rank ->
+  forall lf rd rf,
+    (forall n l, Permutation (lf n l) l) -> (forall n l, Permutation (rd n l) l) -> (forall n l, Permutation (rf n l) l) ->
+  forall fuel earlier n, find_pkg n b <> None -> (rank n < fuel)%nat ->
+    exists c, compile_package convert lf rd rf fuel b (compile_seq convert lf rd rf fuel b [] earlier) n
+              = Some (c, p_files (spec_pkg convert b n)).
+Proof.
+  intros Hv Hw lf rd rf P1 P2 P3 fuel earlier n Hf Hr.
+  apply (compile_package_total convert lf rd rf P1 P2 P3 b rank Hv Hw); auto.
+  apply compile_seq_cache_ok; auto. apply cache_ok_nil.
+Qed.
+
 (* Two runs of the same bundle under different listing orders, map iteration orders, fuels, and
    with different histories of earlier CompilePackage calls on their PackageSets, return the same
    files in the same order with the same content *)
-Theorem compile_deterministic {F D} (convert : env -> @srcfile F -> D) (b : @bundle F) :
+Theorem compile_deterministic {F D} (convert : env -> @srcfile F -> bytes -> D) (b : @bundle F) :
   valid b ->
   forall lf1 rd1 rf1 lf2 rd2 rf2,
     (forall n l, Permutation (lf1 n l) l) -> (forall n l, Permutation (rd1 n l) l) -> (forall n l, Permutation (rf1 n l) l) ->
@@ -738,42 +824,275 @@ Proof.
   congruence.
 Qed.
 
+
+(* ------------------------------------------------------------ the link phase and its cache *)
+Section LinkFacts.
+  Context {D L : Type}.
+  Variable lookup : bytes -> option D.
+  Variable deps_of : D -> list bytes.
+  Variable link1 : D -> list L -> L.
+  Notation link_file := (link_file lookup deps_of link1).
+  Notation link_all := (link_all lookup deps_of link1).
+  Notation spec_link := (spec_link lookup deps_of link1).
+
+  Definition spec_list (fuel : nat) (ds : list bytes) : option (list L) :=
+    fold_right (fun dep acc => match spec_link fuel dep, acc with
+                               | Some l, Some ls => Some (l :: ls)
+                               | _, _ => None
+                               end) (Some []) ds.
+  Lemma spec_link_unfold fuel name :
+    spec_link (S fuel) name =
+    match lookup name with
+    | None => None
+    | Some d => match spec_list fuel (deps_of d) with Some ls => Some (link1 d ls) | None => None end
+    end.
+  Proof. reflexivity. Qed.
+
+  (* more fuel does not change a result *)
+  Lemma spec_link_mono : forall f1 n l, spec_link f1 n = Some l -> forall f2, (f1 <= f2)%nat -> spec_link f2 n = Some l.
+  Proof.
+    induction f1 as [|f1 IH]; intros n l H f2 Hle; [discriminate|].
+    destruct f2 as [|f2]; [lia|]. rewrite spec_link_unfold in *.
+    destruct (lookup n) as [d|]; [|discriminate].
+    assert (Hl : forall ds ls, spec_list f1 ds = Some ls -> spec_list f2 ds = Some ls).
+    { induction ds as [|x r IHr]; intros ls Hs; cbn [spec_list fold_right] in *; [exact Hs|].
+      fold (spec_list f1 r) in Hs. fold (spec_list f2 r).
+      destruct (spec_link f1 x) as [lx|] eqn:Ex; [|discriminate].
+      destruct (spec_list f1 r) as [lr|] eqn:Er; [|discriminate].
+      rewrite (IH _ _ Ex f2) by lia. rewrite (IHr _ eq_refl). exact Hs. }
+    destruct (spec_list f1 (deps_of d)) as [ls|] eqn:E; [|discriminate].
+    rewrite (Hl _ _ E). exact H.
+  Qed.
+  Lemma spec_list_mono f1 ds ls : spec_list f1 ds = Some ls -> forall f2, (f1 <= f2)%nat -> spec_list f2 ds = Some ls.
+  Proof.
+    revert ls. induction ds as [|x r IHr]; intros ls Hs f2 Hle; cbn [spec_list fold_right] in *; [exact Hs|].
+    fold (spec_list f1 r) in Hs. fold (spec_list f2 r).
+    destruct (spec_link f1 x) as [lx|] eqn:Ex; [|discriminate].
+    destruct (spec_list f1 r) as [lr|] eqn:Er; [|discriminate].
+    rewrite (spec_link_mono _ _ _ Ex f2 Hle). rewrite (IHr _ eq_refl f2 Hle). exact Hs.
+  Qed.
+  (* hence what linking a file yields is unique *)
+  Lemma spec_link_functional f1 f2 n l1 l2 : spec_link f1 n = Some l1 -> spec_link f2 n = Some l2 -> l1 = l2.
+  Proof.
+    intros H1 H2. pose proof (spec_link_mono _ _ _ H1 (Nat.max f1 f2) (Nat.le_max_l _ _)) as E1.
+    pose proof (spec_link_mono _ _ _ H2 (Nat.max f1 f2) (Nat.le_max_r _ _)) as E2. congruence.
+  Qed.
+  Lemma spec_list_app f ds1 ds2 l1 l2 : spec_list f ds1 = Some l1 -> spec_list f ds2 = Some l2 -> spec_list f (ds1 ++ ds2) = Some (l1 ++ l2).
+  Proof.
+    revert l1. induction ds1 as [|x r IH]; intros l1 H1 H2; cbn [spec_list fold_right app] in *.
+    - inversion H1; subst. exact H2.
+    - fold (spec_list f r) in H1. fold (spec_list f (r ++ ds2)).
+      destruct (spec_link f x) as [lx|]; [|discriminate]. destruct (spec_list f r) as [lr|] eqn:Er; [|discriminate].
+      inversion H1; subst. rewrite (IH _ eq_refl H2). reflexivity.
+  Qed.
+
+  (* the SearchResult.Linked cache only ever holds what linking the file yields *)
+  Definition link_cache_ok (c : list (bytes * L)) : Prop :=
+    keys_sorted c /\ forall n l, map_get n c = Some l -> exists f, spec_link f n = Some l.
+  Lemma link_cache_ok_nil : link_cache_ok [].
+  Proof. split; [apply keys_sorted_nil|]. intros n l H. discriminate. Qed.
+  Lemma link_cache_ok_set c n l f : link_cache_ok c -> spec_link f n = Some l -> link_cache_ok (map_set n l c).
+  Proof.
+    intros [S H] Hs. split; [apply map_set_sorted; exact S|]. intros k x Hk.
+    destruct (list_eq_dec N.eq_dec k n) as [E|E].
+    - subst. rewrite map_get_set_same in Hk. inversion Hk; subst. eauto.
+    - rewrite map_get_set_other in Hk by exact E. eauto.
+  Qed.
+
+  Definition link_step (fuel : nat) :=
+    fun (acc : option (list (bytes * L) * list L)) (dep : bytes) =>
+      match acc with
+      | None => None
+      | Some (c, ls) =>
+          match link_file fuel c dep with
+          | None => None
+          | Some (c', l) => Some (c', ls ++ [l])
+          end
+      end.
+  Lemma link_step_none fuel ds : fold_left (link_step fuel) ds None = None.
+  Proof. induction ds as [|d r IH]; cbn [fold_left link_step]; [reflexivity|exact IH]. Qed.
+
+  Lemma link_loop fuel :
+    (forall c n c' l, link_cache_ok c -> link_file fuel c n = Some (c', l) -> (exists f, spec_link f n = Some l) /\ link_cache_ok c') ->
+    forall ds c ls0 c' ls', link_cache_ok c ->
+      fold_left (link_step fuel) ds (Some (c, ls0)) = Some (c', ls') ->
+      exists f ls, ls' = ls0 ++ ls /\ spec_list f ds = Some ls /\ link_cache_ok c'.
+  Proof.
+    intro IH. induction ds as [|d r IHd]; intros c ls0 c' ls' Hc Hf; cbn [fold_left] in Hf.
+    - inversion Hf; subst. exists 0%nat, []. rewrite app_nil_r. split; [reflexivity|split; [reflexivity|exact Hc]].
+    - cbn [link_step] in Hf. destruct (link_file fuel c d) as [[c1 l]|] eqn:El; [|rewrite link_step_none in Hf; discriminate].
+      destruct (IH _ _ _ _ Hc El) as [[f1 Hs1] Hc1].
+      destruct (IHd _ _ _ _ Hc1 Hf) as [f2 [ls [E [Hs2 Hc']]]].
+      exists (Nat.max f1 f2), (l :: ls). split; [rewrite E, <- app_assoc; reflexivity|]. split; [|exact Hc'].
+      cbn [spec_list fold_right]. fold (spec_list (Nat.max f1 f2) r).
+      rewrite (spec_link_mono _ _ _ Hs1 _ (Nat.le_max_l _ _)). rewrite (spec_list_mono _ _ _ Hs2 _ (Nat.le_max_r _ _)). reflexivity.
+  Qed.
+
+  (* linking a file returns what linking the file yields, whatever the cache held (whatever was linked
+     by earlier CompilePackage calls), and keeps the cache consistent *)
+  Theorem link_file_spec : forall fuel c n c' l,
+    link_cache_ok c -> link_file fuel c n = Some (c', l) -> (exists f, spec_link f n = Some l) /\ link_cache_ok c'.
+  Proof.
+    induction fuel as [|fuel IH]; intros c n c' l Hc Hl.
+    - cbn [CmpbOrder.link_file] in Hl. destruct (map_get n c) as [l0|] eqn:G; [|discriminate].
+      inversion Hl; subst. split; [apply (proj2 Hc); exact G|exact Hc].
+    - cbn [CmpbOrder.link_file] in Hl. destruct (map_get n c) as [l0|] eqn:G.
+      { inversion Hl; subst. split; [apply (proj2 Hc); exact G|exact Hc]. }
+      destruct (lookup n) as [d|] eqn:Ed; [|discriminate].
+      fold (link_step fuel) in Hl.
+      destruct (fold_left (link_step fuel) (deps_of d) (Some (c, []))) as [[c1 ls]|] eqn:Ef; [|discriminate].
+      destruct (link_loop fuel IH _ _ _ _ _ Hc Ef) as [f [ls' [E [Hs Hc1]]]]. cbn [app] in E. subst ls'.
+      inversion Hl; subst.
+      assert (Hn : spec_link (S f) n = Some (link1 d ls)) by (rewrite spec_link_unfold, Ed, Hs; reflexivity).
+      split; [eauto|]. apply (link_cache_ok_set _ _ _ (S f)); assumption.
+  Qed.
+
+  Theorem link_all_spec : forall fuel names c c' ls,
+    link_cache_ok c -> link_all fuel c names = Some (c', ls) -> (exists f, spec_list f names = Some ls) /\ link_cache_ok c'.
+  Proof.
+    intros fuel. induction names as [|n r IH]; intros c c' ls Hc H; cbn [CmpbOrder.link_all] in H.
+    - inversion H; subst. split; [exists 0%nat; reflexivity|exact Hc].
+    - destruct (link_file fuel c n) as [[c1 l]|] eqn:El; [|discriminate].
+      destruct (link_file_spec _ _ _ _ _ Hc El) as [[f1 Hs1] Hc1].
+      destruct (link_all fuel c1 r) as [[c2 lr]|] eqn:Er; [|discriminate]. inversion H; subst.
+      destruct (IH _ _ _ Hc1 Er) as [[f2 Hs2] Hc2]. split; [|exact Hc2].
+      exists (Nat.max f1 f2). cbn [spec_list fold_right]. fold (spec_list (Nat.max f1 f2) r).
+      rewrite (spec_link_mono _ _ _ Hs1 _ (Nat.le_max_l _ _)). rewrite (spec_list_mono _ _ _ Hs2 _ (Nat.le_max_r _ _)). reflexivity.
+  Qed.
+
+  Lemma spec_list_functional f1 f2 ds l1 l2 : spec_list f1 ds = Some l1 -> spec_list f2 ds = Some l2 -> l1 = l2.
+  Proof.
+    intros H1 H2. pose proof (spec_list_mono _ _ _ H1 (Nat.max f1 f2) (Nat.le_max_l _ _)) as E1.
+    pose proof (spec_list_mono _ _ _ H2 (Nat.max f1 f2) (Nat.le_max_r _ _)) as E2. congruence.
+  Qed.
+
+  (* resolveAll on one PackageSet: whatever earlier calls left in the Linked cache (any consistent
+     cache, in particular the empty one of a fresh set), the linked files are the same *)
+  Theorem link_all_deterministic : forall fuel1 fuel2 names c1 c2 c1' c2' ls1 ls2,
+    link_cache_ok c1 -> link_cache_ok c2 ->
+    link_all fuel1 c1 names = Some (c1', ls1) -> link_all fuel2 c2 names = Some (c2', ls2) -> ls1 = ls2.
+  Proof.
+    intros fuel1 fuel2 names c1 c2 c1' c2' ls1 ls2 H1 H2 E1 E2.
+    destruct (link_all_spec _ _ _ _ _ H1 E1) as [[f1 S1] _]. destruct (link_all_spec _ _ _ _ _ H2 E2) as [[f2 S2] _].
+    exact (spec_list_functional _ _ _ _ _ S1 S2).
+  Qed.
+End LinkFacts.
+
+(* ------------------------------------------------------------ the property at full strength *)
+(* C14 over the model: for every valid bundle with acyclic, present dependencies, every choice of the
+   order parameters (any permutations), fuel above the rank and any history of earlier calls on the
+   PackageSet, CompilePackage returns, and returns what the bundle alone determines; import lists
+   depend on the set of ensured files only; printed options, field options and map-option entries
+   do not depend on protobuf's Range order. *)
+Definition full_statement : Prop :=
+  (forall (F D : Type) (convert : env -> @srcfile F -> bytes -> D) (b : @bundle F) rank,
+     valid b -> well_founded_deps b rank ->
+     forall lf rd rf,
+       (forall n l, Permutation (lf n l) l) -> (forall n l, Permutation (rd n l) l) -> (forall n l, Permutation (rf n l) l) ->
+     forall fuel earlier n, find_pkg n b <> None -> (rank n < fuel)%nat ->
+       exists c, compile_package convert lf rd rf fuel b (compile_seq convert lf rd rf fuel b [] earlier) n
+                 = Some (c, p_files (spec_pkg convert b n)))
+  /\ (forall c1 c2, (forall x, In x c1 <-> In x c2) -> ensure_all c1 = ensure_all c2)
+  /\ (forall l1 l2, Permutation l1 l2 -> distinct_on o_full l1 -> options_for l1 = options_for l2)
+  /\ (forall l1 l2, Permutation l1 l2 -> distinct_on o_name l1 -> field_options l1 = field_options l2)
+  /\ (forall l1 l2, Permutation l1 l2 -> distinct_on (fun kv : bytes * bytes => fst kv) l1 -> map_entries l1 = map_entries l2).
+Lemma full_statement_holds : full_statement.
+Proof.
+  split; [|split; [|split; [|split]]].
+  - intros F D convert b rank Hv Hw lf rd rf P1 P2 P3 fuel earlier n Hf Hr.
+    exact (compile_total_deterministic convert b rank Hv Hw lf rd rf P1 P2 P3 fuel earlier n Hf Hr).
+  - exact ensure_all_set_invariant.
+  - exact options_for_perm.
+  - exact field_options_perm.
+  - exact map_entries_perm.
+Qed.
+
 (* ------------------------------------------------------------ the order sites of the Go code *)
 From Coq Require Import String.
 From J5V.gen Require MapRangeGen SetExtGen.
 Local Open Scope string_scope.
 
-(* how each unordered iteration of the compile/print path is accounted for *)
+(* ---- lemmas behind the sites whose loop body makes the order irrelevant *)
+(* RangeField (setJ5Ext): each populated field of the source message is assigned to the same-named field
+   of a fresh message; assignments to distinct keys commute (a message = a map from field to value) *)
+Lemma assign_distinct_fields_commute : forall (es1 es2 m : list (bytes * bytes)),
+  keys_sorted m -> NoDup (map fst es1) -> Permutation es1 es2 -> set_all es1 m = set_all es2 m.
+Proof. intros. apply set_all_perm; assumption. Qed.
+(* markOptionImportsUsed: when every extension resolves (C07: the converter imports the file of every
+   extension it sets) no order of the range finds an error *)
+Lemma first_unresolved_none {A} (resolves : A -> bool) l1 l2 :
+  (forall x, In x l1 -> resolves x = true) -> Permutation l1 l2 -> first_unresolved resolves l2 = None.
+Proof.
+  intros H Hp. unfold first_unresolved. apply find_none_iff || idtac.
+  destruct (find (fun x => negb (resolves x)) l2) as [x|] eqn:E; [|reflexivity].
+  apply find_some in E. destruct E as [Hi Hn]. apply (Permutation_in _ (Permutation_sym Hp)) in Hi.
+  rewrite (H _ Hi) in Hn. discriminate.
+Qed.
+(* buildFieldNode: the populated members of a oneof: at most one, so there is only one order *)
+Lemma at_most_one_has_one_order {A} (l1 l2 : list A) : (List.length l1 <= 1)%nat -> Permutation l1 l2 -> l2 = l1.
+Proof.
+  intros Hl Hp. destruct l1 as [|a [|b r]]; cbn in Hl; try lia.
+  - apply Permutation_nil in Hp. exact Hp.
+  - apply Permutation_length_1_inv in Hp. exact Hp.
+Qed.
+
+(* how each unordered iteration of the compile/print path is accounted for: Modelled and Insensitive
+   rows CARRY the proved statement that justifies them; NotObserved rows are review notes *)
 Inductive site_class :=
-| Modelled (param lemma : string)       (* an order parameter of model/CmpbOrder.v; lemma = its irrelevance *)
-| Insensitive (why : string)            (* the loop body commutes / has a single iteration *)
-| NotObserved (why : string).           (* affects only texts C14 does not observe (lint reports, error messages, logs) *)
+| Modelled (param : string) (P : Prop) (pf : P)   (* an order parameter of model/CmpbOrder.v with its irrelevance theorem *)
+| Insensitive (why : string) (P : Prop) (pf : P)  (* the loop body commutes / runs at most once: the lemma that says so *)
+| NotObserved (why : string).                     (* affects only texts C14 does not observe (lint reports, error messages, logs): NOT proved *)
 
 Definition model_order_sites : list ((string * string * string * string * string) * site_class) :=
   [ (("j5convert", "fields.go", "RangeField", "protoreflect.Message.Range", "pt"),
-      Insensitive "setJ5Ext copies each populated field of the Ext message to the same-named field of a fresh message: writes to distinct fields commute (C07_setj5ext_copy_total shows no copy can fail)");
+      Insensitive "setJ5Ext copies each populated field of the Ext message to the same-named field of a fresh message"
+        _ assign_distinct_fields_commute);
     (("j5convert", "summary_walk.go", "SourceSummary", "range-map", "importMap.vals"),
       NotObserved "only emits `import not used` warnings (lint report order); the summary itself is built from slices");
     (("optionreflect", "builder.go", "Builder.OptionsFor", "protoreflect.Message.Range", "srcReflect"),
-      Modelled "options_for / field_options" "options_for_perm (total order: line, index, full name), field_options_perm (distinct names); options_for_by_index_tie for the order used before the repair");
+      Modelled "options_for / field_options" _ (conj options_for_perm field_options_perm));
     (("optionreflect", "walk.go", "walkOptionMap", "protoreflect.Map.Range", "mp"),
-      Modelled "map_entries" "map_entries_perm");
+      Modelled "map_entries" _ map_entries_perm);
     (("protobuild", "linker.go", "markOptionImportsUsed", "proto.RangeExtensions", "opts"),
-      Insensitive "marks imports as used (idempotent); stops at the first extension whose file is not imported, which C07_links_in_isolation excludes");
+      Insensitive "marks imports as used; stops at the first extension whose file is not imported, which C07_links_in_isolation excludes"
+        _ (@first_unresolved_none opt));
     (("protobuild", "lint.go", "LintAll", "range-map", "pkg.Files"),
       NotObserved "lint path only; C14 observes CompilePackage and PrintFile");
     (("protobuild", "packages.go", "Package.includeIO", "range-map", "summary.Exports"),
-      Modelled "include_io" "include_io_perm, collect_exports_perm");
+      Modelled "include_io" _ (@include_io_perm bytes));
     (("protobuild", "packages.go", "PackageSet.findFileByPath", "maps.Keys", "pkg.Files"),
       NotObserved "text of a `file not found` error message");
     (("protobuild", "packages.go", "PackageSet.resolveDependencies", "range-map", "deps"),
-      Modelled "range_deps (load)" "load_spec: the loaded package equals spec_pkg whatever the order");
+      Modelled "range_deps (load)" _ (@compile_total_deterministic));
     (("protobuild", "packages.go", "PackageSet.CompilePackage", "range-map", "pkg.Files"),
-      Modelled "range_files (compile_package) / sort_names" "sort_names_perm, compile_package_spec");
+      Modelled "range_files (compile_package) / sort_names" _ sort_names_perm);
     (("sourcewalk", "property.go", "buildFieldNode", "protoreflect.Message.Range", "tn"),
-      Insensitive "ranges over the populated members of the Field.type oneof: at most one iteration");
+      Insensitive "ranges over the populated members of the Field.type oneof: at most one iteration"
+        _ (@at_most_one_has_one_order bytes));
     (("sourcewalk", "sourcewalk.go", "SourceNode.child", "maps.Keys", "walk.Source.Children"),
-      NotObserved "argument of a log line under `if false`") ].
+      NotObserved "argument of a log line under `if false`");
+    (* the front end (internal/bcl/**, lib/j5reflect), scanned since the audit *)
+    (("j5reflect", "property_set.go", "copyReflect", "protoreflect.Message.Range", "a"),
+      Insensitive "copies each populated field of a into the same field of b: assignments to distinct fields"
+        _ assign_distinct_fields_commute);
+    (("j5reflect", "type_map.go", "mutableMapField.Range", "protoreflect.Map.Range", "mapField.value"),
+      NotObserved "reader API of map fields (encoder side); no caller in internal/bcl or internal/j5s");
+    (("j5reflect", "type_map.go", "leafMapField.Range", "protoreflect.Map.Range", "mapField.value"),
+      NotObserved "reader API of map fields (encoder side); no caller in internal/bcl or internal/j5s");
+    (("walker/schema", "container_set.go", "containerSet.allChildFields", "range-map", "blockSchema.spec.Aliases"),
+      Insensitive "inserts each alias under its own name unless present: the keys of the ranged map are distinct, no key is written twice"
+        _ assign_distinct_fields_commute);
+    (("walker/schema", "container_set.go", "containerSet.listChildren", "maps.Keys", "fields"),
+      Modelled "keys then sort.Strings" _ sort_names_perm);
+    (("walker/schema", "container_set.go", "containerSet.listAttributes", "range-map", "fields"),
+      Modelled "filtered keys then sort.Strings" _ sort_names_perm);
+    (("walker/schema", "container_set.go", "containerSet.listBlocks", "range-map", "fields"),
+      Modelled "filtered keys then sort.Strings" _ sort_names_perm);
+    (("walker/schema", "schemaset.go", "SchemaSet._buildSpec", "range-map", "newAliases"),
+      Insensitive "copies each new alias into blockSpec.Aliases unless present: distinct keys, no key written twice"
+        _ assign_distinct_fields_commute);
+    (("walker/schema", "scope.go", "Scope.PrintScope", "range-map", "sw.blockSet.allChildFields()"),
+      NotObserved "debug printing of a scope") ].
 
 (* every unordered iteration found by the translator is classified, and nothing else is claimed:
    equality as SETS (moving a loop inside its file does not matter; a new loop, or one that
